@@ -255,7 +255,44 @@ def poisoned_saves():
     return n, vs
 
 
+def alias_exposure():
+    """Exactly the first n user-defined controllers are exposed — also through the label aliases (u_<label>) of the
+    live object, for every order of labelling and changing the count."""
+    import rv.api as rv
+
+    vs = []
+    n = 0
+    for total, lower in ((3, 1), (3, 0), (5, 2), (96, 95), (2, 2)):
+        for order in ("label-then-lower", "lower-then-label"):
+            n += 1
+            mm = rv.m.MetaModule()
+            mm.project.new_module(rv.m.Amplifier)
+            labels = [f"ctl{i}" for i in range(total)]
+            if order == "label-then-lower":
+                mm.user_defined_controllers = total
+                for i, lab in enumerate(labels):
+                    mm.user_defined[i].label = lab
+                mm.user_defined_controllers = lower
+            else:
+                mm.user_defined_controllers = lower
+                for i, lab in enumerate(labels):
+                    mm.user_defined[i].label = lab
+            exposed = sorted(x for x in dir(mm) if x.startswith("u_ctl"))
+            want = sorted(f"u_ctl{i}" for i in range(lower))
+            hidden_visible = [f"u_ctl{i}" for i in range(lower, total) if hasattr(mm, f"u_ctl{i}")]
+            if exposed != want or hidden_visible:
+                vs.append(C.viol("hidden-controller-exposed-by-alias", {"order": order},
+                                 {"count": lower, "labelled": total, "dir": exposed[:6], "hasattr_hidden": hidden_visible[:6]},
+                                 {"aliases": True}))
+            names = [c.name for c in mm.user_defined if c.attached(mm)]
+            if names != [f"user_defined_{i + 1}" for i in range(lower)]:
+                vs.append(C.viol("attached-flags", {"ctx": "live", "what": "alias-exposure"}, {"attached": names[:6]}, {"aliases": True}))
+    return n, vs
+
+
 def run_case(case):
+    if case.get("aliases"):
+        return alias_exposure()[1]
     if case.get("poisoned"):
         return poisoned_saves()[1]
     return check_case(case)[0]
@@ -285,8 +322,10 @@ def run(ctx):
     ctx.add(agg.violations)
     n_p, v_p = poisoned_saves()
     ctx.add(v_p)
-    agg.evals += n_p
-    labels = {"poisoned-saves": n_p}
+    n_a, v_a = alias_exposure()
+    ctx.add(v_a)
+    agg.evals += n_p + n_a
+    labels = {"poisoned-saves": n_p, "alias-exposure": n_a}
     for c in cases:
         k = c["label"].split(":")[0]
         labels[k] = labels.get(k, 0) + 1
